@@ -160,14 +160,14 @@ func (g *G) anyOrBool(ctx *xdoc.Node, depth int) (xast.Expr, bool) {
 // NumDoc is the document shape for C08: numeric values (and a few non-numeric ones for NaN).
 func NumDoc() DocOpts {
 	o := DefaultDoc()
-	o.Texts = []string{"1", "2", "10", "-3", "0.5", "7", ".5", "12.50", "t", "100", " 4 ", "1e2"}
+	o.Texts = []string{"1", "2", "10", "-3", "0.5", "7", ".5", "12.50", "t", "100", " 4 ", "1e2", "\n6\n", ".125"}
 	o.AtVals = []string{"1", "2", "3", "-1", "0", "", "x", "2.5"}
 	o.MaxDepth = 3
 	o.MaxFan = 4
 	return o
 }
 
-var arithLits = []string{"0", "1", "2", "3", "7", "10", "007", "1.", ".5", "12.50", "0.1", "0.2", "1234567.125", "0.12345678901234567", "99999", "1000000", "0.0001", "0.00001", "3.0"}
+var arithLits = []string{"0", "1", "2", "3", "7", "10", "007", "1.", ".5", "12.50", "0.1", "0.2", "1234567.125", "0.12345678901234567", "99999", "1000000", "0.0001", "0.00001", "3.0", ".125", ".75", ".0625", "0.333", "10.0625"}
 var intLits = []string{"0", "1", "2", "3", "5", "7", "10", "12"}
 var posIntLits = []string{"1", "2", "3", "5", "7", "10"}
 
@@ -209,7 +209,7 @@ func (g *G) Arith(ctx *xdoc.Node, depth int) xast.Expr {
 		case 2:
 			return &xast.Call{Name: "number", Args: []xast.Expr{g.FlatPath(base)}}
 		case 3:
-			return &xast.Call{Name: "number", Args: []xast.Expr{&xast.Str{S: g.pick([]string{"12", " 7 ", "x", "", "1e3", "-2.5", "+1", ".5", "5.", "Infinity", "0x10", "1 2"}, "numstr")}}}
+			return &xast.Call{Name: "number", Args: []xast.Expr{&xast.Str{S: g.pick([]string{"12", " 7 ", "x", "", "1e3", "-2.5", "+1", ".5", "5.", "Infinity", "0x10", "1 2", " \n7\r\n", "\t2", "\n", "3\n"}, "numstr")}}}
 		case 4:
 			return &xast.Call{Name: "string-length", Args: []xast.Expr{g.FlatPath(base)}}
 		}
